@@ -60,8 +60,8 @@ def gen_prolog(rng, secret_path=None):
     names = []
     for i in range(n):
         name = "e%d" % i
-        kind = rng.choice(["literal", "literal", "charref", "nested", "nested", "external", "public", "parameter", "single-quoted", "backslash", "gt-in-value", "empty"])
-        if kind == "nested" and not names:
+        kind = rng.choice(["literal", "literal", "charref", "nested", "nested", "external", "public", "parameter", "single-quoted", "backslash", "gt-in-value", "empty", "charref-nested", "mixed-charref"])
+        if kind in ("nested", "charref-nested") and not names:
             kind = "literal"
         marker = "M%dX" % i
         if kind == "literal":
@@ -71,6 +71,15 @@ def gen_prolog(rng, secret_path=None):
         elif kind == "nested":
             ref = rng.choice(names)
             decl = '<!ENTITY %s "%s">' % (name, ("&%s;" % ref) * rng.randint(2, 10) + marker)
+        elif kind == "charref-nested":
+            # the ampersand of the nested reference is itself spelled as a character reference: the XML processor turns it into '&' when it stores the
+            # replacement text, so the entity IS defined in terms of another one
+            ref = rng.choice(names)
+            amp = rng.choice(["&#38;", "&#x26;", "&#038;", "&#x0026;"])
+            decl = '<!ENTITY %s "%s">' % (name, ("%s%s;" % (amp, ref)) * rng.randint(2, 10) + marker)
+        elif kind == "mixed-charref":
+            # text mixed with character references (harmless whether expanded or not; here to exercise the boundary of the safe pattern)
+            decl = '<!ENTITY %s "Caf&#233; %s &#169;">' % (name, marker)
         elif kind == "external":
             decl = '<!ENTITY %s SYSTEM "%s">' % (name, secret_path or "file:///nonexistent/secret")
         elif kind == "public":
@@ -194,7 +203,8 @@ def check_doc(docbytes, info, mode, secret=None, secret_path=None):
     import feedparser
     import feedparser.api as api
     ensure_hook()
-    delivery, loose = mode
+    delivery, loose = mode[0], mode[1]
+    opt = mode[2] if len(mode) > 2 else None             # the per-call optimistic_encoding_detection argument (None: not passed)
     w = {"doc": docbytes, "info": info, "mode": list(mode)}
     src = io.BytesIO(docbytes) if delivery == "bytesio" else NonSeekable(docbytes) if delivery == "nonseekable" else io.StringIO(docbytes.decode("utf-8", "replace"))
     saved = api._XML_AVAILABLE
@@ -206,7 +216,7 @@ def check_doc(docbytes, info, mode, secret=None, secret_path=None):
             warnings.simplefilter("ignore")
             _AUDIT["on"] = True
             try:
-                r = feedparser.parse(src)
+                r = feedparser.parse(src) if opt is None else feedparser.parse(src, optimistic_encoding_detection=opt)
             except Exception as e:
                 _AUDIT["on"] = False
                 return []
@@ -236,7 +246,7 @@ def check_doc(docbytes, info, mode, secret=None, secret_path=None):
             k = k  # classified below
         mk = "M%dX" % i
         occ = sum(t.count(mk) for t in texts)
-        if k in ("nested", "public", "parameter", "gt-in-value", "single-quoted-nested") and occ:
+        if k in ("nested", "public", "parameter", "gt-in-value", "single-quoted-nested", "charref-nested") and occ:
             fs.append(Finding(("expanded", "doctype-beyond-64k-prefix") if beyond else ("expanded", k, "loose" if loose else "strict"), w, "entity %s of kind %s (layout %s) was expanded: marker %s occurs %d times in the result" % (nm, k, info.get("layout"), mk, occ)))
         if k == "single-quoted" and occ and any(("&e0;" in t) is False and t.count("M0X") > 2 for t in texts):
             pass
@@ -260,8 +270,12 @@ def search(ctx, focus=None):
     try:
         for _ in range(ctx.n(700, 20000)):
             doc, info = gen_prolog(rng, secret_path=tf.name if rng.random() < 0.5 else "file://" + tf.name)
-            mode = (rng.choice(["bytesio", "bytesio", "nonseekable", "stringio"]), rng.random() < 0.3)
+            mode = (rng.choice(["bytesio", "bytesio", "nonseekable", "stringio"]), rng.random() < 0.3, rng.choice([None, None, None, False, True]))
             d = doc.encode(rng.choice(["utf-8", "utf-8", "utf-16", "utf-32"])) if mode[0] != "stringio" else doc.encode("utf-8")
+            if mode[0] == "bytesio" and rng.random() < 0.12:
+                # a long document whose detection prefix decodes fine but which carries an undecodable byte later on: the whole-document route runs
+                d = doc.encode("utf-8") + b"<!-- " + b"padding " * 9000 + rng.choice([b"\x92", b"\xff", b"\xe9"]) + b" -->"
+                info = dict(info, tail="undecodable-byte-after-64k")
             n += 1
             distinct.add((d, mode))
             k = "%s/%s" % (info["layout"], info["doctype"])
@@ -283,7 +297,8 @@ def search(ctx, focus=None):
                     "reference, nested (2-10 references to an earlier entity), external SYSTEM (pointing at a real temp file) / PUBLIC (loopback URL), parameter, "
                     "single-quoted, backslash-carrying, '>' in value, empty} x layouts {own lines, one line, indented, CRLF, tabs, parameter-entity references "
                     "between, comments between, spaces} x preceding comments/PIs (incl. a 70 kB comment) x XML declaration x utf-8/16/32 x "
-                    "{BytesIO, non-seekable stream, StringIO} x both back ends; oracle: per-entity expansion markers, the temp file's secret content, a linear "
+                    "{BytesIO, non-seekable stream, StringIO} x both back ends x optimistic_encoding_detection {not passed, False, True} (+ long documents with an undecodable byte after the "
+                    "detection prefix, which take the whole-document route); nested references also spelled with a character reference for the ampersand (&#38;name;); oracle: per-entity expansion markers, the temp file's secret content, a linear "
                     "size bound, and a sys.addaudithook recording open/socket/subprocess/urllib events during parse(stream); distinct = distinct (bytes, mode)",
             "samples": [{"doc": gen_prolog(vlib.random.Random(3))[0][:300]}]}
 
